@@ -17,10 +17,11 @@ CLAIMED = {
               "getRepresentation / destroyRepresentation / self-observation eviction, the sub-key, Contour.move's in-place "
               "patch, the contour -> glyph -> component -> glyph notification routes with base-glyph observation "
               "switching): an invariant 'every cached value equals the factory applied to the object's current view, "
-              "to any component nesting depth' preserved by every request, cache-API call, registration and every "
-              "Contour / Component / Glyph / Groups mutator incl. move, base re-assignment, insert / remove / re-insert "
-              "(cache_coherent_partial: the three operations that add / delete / rename a glyph are not yet covered by "
-              "the induction); cascade completeness by induction on nesting depth (nested_base_eviction); at most one "
+              "to any component nesting depth' preserved by every request, cache-API call, registration, every "
+              "Contour / Component / Glyph / Groups mutator incl. move, base re-assignment, insert / remove / re-insert, "
+              "and creation / deletion / renaming of (base) glyphs (cache_coherent, for every operation sequence whose "
+              "states stay in the structural domain: acyclic, unique ids / names, registrations in place - checked at "
+              "run time); cascade completeness by induction on nesting depth (nested_base_eviction); at most one "
               "factory run per (name, kwargs) between changes; sub-key injectivity; the patch geometry over Z; and a "
               "coverage obligation discharged by `decide` over tables REGENERATED from the source on every run "
               "(representationFactories incl. string-instead-of-tuple specs, notifications posted per method, "
